@@ -8,7 +8,7 @@ per report the dict letter -> first value in that report; afterwards
 get_parameter(letter) == latest truth for every letter mentioned so far.
 """
 
-from vf.runner import Violation, run_hypothesis
+from vf.runner import Violation, HarnessError, run_hypothesis
 
 ID = "C18"
 LEVEL = "exploration"
@@ -30,7 +30,10 @@ ASSUMPTIONS = [
     "report wins; letters a report does not mention keep their reading",
     "a report uses one letter case per letter",
     "reports are delivered through the recvcb callback the writer installs "
-    "on its printcore (no device I/O)",
+    "on its printcore (no device I/O); a smaller number of histories is also "
+    "sent by a simulated device over the serial double and over loopback TCP "
+    "as the reply to a statement (over TCP also cut into several packets: the "
+    "newline alone, halves, 3-byte pieces), and read after write() has returned",
 ]
 TECHNIQUE = ("property-based testing (Hypothesis report grammars and "
              "histories) against generator-side truth + atheris field fuzzing")
@@ -236,8 +239,96 @@ def run_case(case, cl=None):
     return cl
 
 
+def run_case_transport(case, cl=None):
+    """The same report history, but sent by a simulated device over a real
+    connection (serial double or loopback TCP) as the reply to a statement:
+    after write() has returned, the readings of that reply must be there."""
+    import time
+    from vf.firmware import Firmware, TcpFront, patched_serial
+    from vf.props.c16 import run_with_timeout, _quiet
+    from gscrib.writers import SerialWriter, SocketWriter
+    cl = set() if cl is None else cl
+    _quiet()
+    items, resolved = [], []
+    for i, rep in enumerate(case["reports"]):
+        if rep["fam"] in ("other_writer", "noise"):
+            continue
+        if rep["fam"] == "repeat":
+            if not resolved:
+                continue
+            rep = resolved[rep["i"] % len(resolved)]
+        resolved.append(rep)
+        line, truth = render(rep)
+        items.append((f"M400 P{i}", line.rstrip("\n"), truth))
+    if not items:
+        return cl
+    fw = Firmware(greeting="start",
+                  behaviours={txt: {"report": line} for txt, line, _ in items})
+    latest = {}
+
+    def session(make):
+        w = make()
+        w.set_timeout(8.0)
+        try:
+            r = run_with_timeout(w.connect, 12.0)
+            if r[0] != "ok":
+                raise HarnessError(f"connect() against the simulator: {r!r}")
+            t0, quiet = time.time(), None
+            while time.time() - t0 < 5:       # let the handshake replies drain
+                if fw.pending() == 0:
+                    quiet = quiet or time.time()
+                    if time.time() - quiet > 0.06:
+                        break
+                else:
+                    quiet = None
+                time.sleep(0.004)
+            for txt, line, truth in items:
+                r = run_with_timeout(lambda: w.write((txt + "\n").encode()), 8.0)
+                if r[0] == "hang":
+                    raise Violation(f"write({txt!r}) did not return; device reply {line!r}")
+                if r[0] == "exc":
+                    raise Violation(f"write({txt!r}) raised {r[1]!r}; device reply {line!r}")
+                latest.update(truth)
+                for letter in "XYZEABCFSTPR":
+                    exp, got = latest.get(letter), w.get_parameter(letter)
+                    if exp is None:
+                        continue
+                    if got != exp:
+                        raise Violation(
+                            f"{case['transport']}: after write({txt!r}) returned, "
+                            f"get_parameter({letter!r}) = {got!r}, the device had replied "
+                            f"{line!r} (expected {exp!r})")
+        finally:
+            run_with_timeout(lambda: w.disconnect(False), 6.0)
+
+    if case["transport"] == "serial":
+        with patched_serial(fw):
+            session(lambda: SerialWriter("/dev/ttyVERIF", 115200))
+    else:
+        frag = case.get("frag")
+        split = None
+        if frag == "lf_alone":        # the newline travels in a packet of its own
+            split = lambda b: [b[:-1], b[-1:]]
+        elif frag == "halves":
+            split = lambda b: [b[:len(b) // 2], b[len(b) // 2:]]
+        elif frag == "bytes3":
+            split = lambda b: [b[i:i + 3] for i in range(0, len(b), 3)]
+        if frag:
+            cl.add("fragmented:" + frag)
+        front = TcpFront(fw, split)
+        try:
+            session(lambda: SocketWriter("127.0.0.1", front.port))
+        finally:
+            front.close()
+    cl.add("over_" + case["transport"])
+    return cl
+
+
 def replay(case):
-    run_case(case)
+    if case.get("transport"):
+        run_case_transport(case)
+    else:
+        run_case(case)
 
 
 NT = {"later_report_omits_letter", "repeated_letter"}
@@ -253,3 +344,15 @@ def run_shard(ctx):
 
     run_hypothesis(ctx, st.fixed_dictionaries(
         {"reports": st.lists(report_strategy(), min_size=1, max_size=10)}), body, n)
+
+    # the same histories sent by a simulated device over a real connection
+    def body_t(case):
+        cl = run_case_transport(case, set())
+        ctx.case(case, nontrivial=len(case["reports"]) >= 2, classes=sorted(cl),
+                 steps=len(case["reports"]))
+
+    run_hypothesis(ctx, st.fixed_dictionaries(
+        {"transport": st.sampled_from(["serial", "socket", "socket"]),
+         "frag": st.sampled_from([None, "lf_alone", "halves", "bytes3"]),
+         "reports": st.lists(report_strategy(), min_size=1, max_size=6)}), body_t,
+        5 if ctx.tier == "quick" else 120, sub="transport")
